@@ -18,6 +18,7 @@ positional argument form that cannot be resolved, keyword/star arguments, a gate
 assigned in a loop body or by something that is not a tuple/attribute literal.
 """
 import ast
+import copy
 import importlib
 import os
 import sys
@@ -84,13 +85,36 @@ class _FnWalker(object):
     """Walks one function body in source order keeping reaching definitions of local names that
     hold gate literals: env[name] = list of (condition text, tuple of ints)."""
 
-    def __init__(self, fname, res):
+    def __init__(self, fname, res, prog=None, inl=(), roots=(), fn=None):
         self.fname = fname
         self.res = res
+        self.prog = prog or {}      # method name -> FunctionDef (both files)
+        self.inl = set(inl)         # helper generators that are flattened into their single caller
+        self.roots = set(roots)     # gate-carrying methods that stay rows of their own
+        self.pure = _pure_locals(fn) if fn is not None else {}
+        self.stack = [fname]
+        self.callrows = []          # (fname, ordinal, callee, guard text, argument text)
         self.rows = []
         self.checks = []            # (fname, ordinal, guard text) of unexpected_message aborts
         self.early = []             # (fname, ordinal, guard text, value) of early_data_ok assignments
         self.tracked_in_loop = set()
+
+    def gtext(self, node):
+        """condition text with single-assignment side-effect-free locals replaced by their value
+        (so that hoisting a sub-expression into a local does not change the table)"""
+        pure = self.pure
+
+        class T(ast.NodeTransformer):
+            depth = 0
+
+            def visit_Name(self, n):
+                if isinstance(n.ctx, ast.Load) and n.id in pure and T.depth < 4:
+                    T.depth += 1
+                    r = self.visit(copy.deepcopy(pure[n.id]))
+                    T.depth -= 1
+                    return r
+                return n
+        return _src(T().visit(copy.deepcopy(node)))
 
     # ---- expressions: find _getMsg calls in evaluation order
     def calls_in(self, node):
@@ -116,6 +140,12 @@ class _FnWalker(object):
         calls.sort(key=lambda c: (c.lineno, c.col_offset))
         for c in calls:
             self.add_call(c, env, guards)
+        for n in sorted([n for n in ast.walk(node)
+                         if isinstance(n, ast.Call) and isinstance(n.func, ast.Attribute)
+                         and isinstance(n.func.value, ast.Name) and n.func.value.id == 'self'
+                         and n.func.attr in self.roots], key=lambda c: (c.lineno, c.col_offset)):
+            args = [self.gtext(a) for a in n.args] + ['%s=%s' % (k.arg, self.gtext(k.value)) for k in n.keywords]
+            self.callrows.append((self.fname, len(self.callrows), n.func.attr, ' && '.join(guards), ', '.join(args)))
         errs = [n for n in ast.walk(node)
                 if isinstance(n, ast.Call) and isinstance(n.func, ast.Attribute) and n.func.attr == '_sendError'
                 and n.args and isinstance(n.args[0], ast.Attribute) and n.args[0].attr == 'unexpected_message']
@@ -227,7 +257,7 @@ class _FnWalker(object):
             return
         if isinstance(s, ast.If):
             self.scan_expr(s.test, env, guards)
-            t = _src(s.test)
+            t = self.gtext(s.test)
             e1 = dict((k, list(v)) for k, v in env.items())
             e2 = dict((k, list(v)) for k, v in env.items())
             self.walk(s.body, e1, guards + [t], in_loop)
@@ -239,6 +269,29 @@ class _FnWalker(object):
                 else:
                     env[k] = [((t + (' && ' + g if g else '')), v) for (g, v) in e1[k]] + \
                              [(('not (%s)' % t) + (' && ' + g if g else ''), v) for (g, v) in e2[k]]
+            return
+        if isinstance(s, (ast.For, ast.AsyncFor)) and isinstance(s.iter, ast.Call) and \
+                isinstance(s.iter.func, ast.Attribute) and isinstance(s.iter.func.value, ast.Name) and \
+                s.iter.func.value.id == 'self' and s.iter.func.attr in self.inl:
+            # `for result in self._helper(...): yield result` with a helper that has no other caller:
+            # its sites are listed here, in execution order, under the conditions of the call
+            name = s.iter.func.attr
+            if name in self.stack:
+                raise Refuse('%s: recursive helper %s' % (self.fname, name))
+            for a in list(s.iter.args) + [k.value for k in s.iter.keywords]:
+                self.scan_expr(a, env, guards)
+            callee = self.prog[name]
+            saved = self.pure
+            self.pure = _pure_locals(callee)
+            self.stack.append(name)
+            self.walk(callee.body, {}, guards, in_loop)
+            self.stack.pop()
+            self.pure = saved
+            for n in ast.walk(s.target):
+                if isinstance(n, ast.Name):
+                    env.pop(n.id, None)
+            self.walk(s.body, env, guards, True)
+            self.walk(s.orelse, env, guards, in_loop)
             return
         if isinstance(s, (ast.For, ast.AsyncFor)):
             # `for result in self._getMsg(...)`: the call sits in the iterator expression
@@ -277,43 +330,169 @@ class _FnWalker(object):
         raise Refuse('%s: statement form %s not handled (line %d)' % (self.fname, type(s).__name__, s.lineno))
 
 
+def _own_nodes(fn):
+    """nodes of fn without those of nested definitions"""
+    out = []
+    stack = list(fn.body)
+    while stack:
+        n = stack.pop()
+        out.append(n)
+        for c in ast.iter_child_nodes(n):
+            if isinstance(c, (ast.FunctionDef, ast.AsyncFunctionDef, ast.ClassDef, ast.Lambda)):
+                continue
+            stack.append(c)
+    return out
+
+
+def _pure_locals(fn):
+    """locals of fn assigned exactly once, by `name = <expression without calls>`"""
+    params = set(a.arg for a in fn.args.args + fn.args.kwonlyargs)
+    if fn.args.vararg:
+        params.add(fn.args.vararg.arg)
+    if fn.args.kwarg:
+        params.add(fn.args.kwarg.arg)
+    stores = {}
+    for n in _own_nodes(fn):
+        if isinstance(n, ast.Name) and isinstance(n.ctx, (ast.Store, ast.Del)):
+            stores[n.id] = stores.get(n.id, 0) + 1
+    out = {}
+    for n in _own_nodes(fn):
+        if isinstance(n, ast.Assign) and len(n.targets) == 1 and isinstance(n.targets[0], ast.Name):
+            nm = n.targets[0].id
+            if stores.get(nm) != 1 or nm in params:
+                continue
+            bad = any(isinstance(x, (ast.Call, ast.Yield, ast.YieldFrom, ast.Await, ast.Lambda, ast.ListComp,
+                                     ast.SetComp, ast.DictComp, ast.GeneratorExp, ast.NamedExpr,
+                                     ast.List, ast.Dict, ast.Set, ast.Subscript))
+                      for x in ast.walk(n.value))
+            if isinstance(n.value, (ast.Constant, ast.Tuple)) or bad:
+                continue
+            out[nm] = n.value
+    return out
+
+
+def _interesting_direct(fn):
+    for n in _own_nodes(fn):
+        if isinstance(n, ast.Attribute) and n.attr == '_getMsg':
+            return True
+        if isinstance(n, ast.Call) and isinstance(n.func, ast.Attribute) and n.func.attr == '_sendError' and n.args \
+                and isinstance(n.args[0], ast.Attribute) and n.args[0].attr == 'unexpected_message':
+            return True
+        if isinstance(n, ast.Attribute) and n.attr == 'early_data_ok' and isinstance(n.ctx, ast.Store):
+            return True
+    return False
+
+
+def _program(repo):
+    """-> (prog, order, inlinable, roots): methods of the classes in FILES.
+    A helper is flattened into its caller when it carries sites (directly or through flattened
+    helpers), is called at exactly one place in the two files and that place is the iterator of a
+    `for` (generator delegation)."""
+    prog, order, dup = {}, [], set()
+    trees = []
+    for rel in FILES:
+        with open(os.path.join(repo, rel)) as f:
+            tree = ast.parse(f.read(), rel)
+        trees.append((rel, tree))
+        for cls in tree.body:
+            if isinstance(cls, ast.ClassDef):
+                for fn in cls.body:
+                    if isinstance(fn, (ast.FunctionDef, ast.AsyncFunctionDef)):
+                        if fn.name in prog:
+                            dup.add(fn.name)
+                        prog[fn.name] = fn
+                        order.append(fn.name)
+    ncalls, foriter = {}, {}
+    for rel, tree in trees:
+        for n in ast.walk(tree):
+            if isinstance(n, ast.Call) and isinstance(n.func, ast.Attribute) and isinstance(n.func.value, ast.Name) \
+                    and n.func.value.id == 'self' and n.func.attr in prog:
+                ncalls[n.func.attr] = ncalls.get(n.func.attr, 0) + 1
+            if isinstance(n, ast.Attribute) and n.attr in prog and not (isinstance(n.value, ast.Name) and n.value.id == 'self'):
+                ncalls[n.attr] = ncalls.get(n.attr, 0) + 2      # reached through something else: never flatten
+            if isinstance(n, (ast.For, ast.AsyncFor)) and isinstance(n.iter, ast.Call) and \
+                    isinstance(n.iter.func, ast.Attribute) and isinstance(n.iter.func.value, ast.Name) and \
+                    n.iter.func.value.id == 'self' and n.iter.func.attr in prog:
+                foriter[n.iter.func.attr] = foriter.get(n.iter.func.attr, 0) + 1
+    cand = set(n for n in prog if n not in dup and n != '_getMsg' and n.startswith('_') and not n.startswith('__')
+               and ncalls.get(n, 0) == 1 and foriter.get(n, 0) == 1)
+    # interesting = carries sites itself or through candidate helpers it delegates to
+    interesting = set(n for n in prog if _interesting_direct(prog[n]))
+    gate_owner = set(n for n in prog if n != '_getMsg' and
+                     any(isinstance(x, ast.Attribute) and x.attr == '_getMsg' for x in _own_nodes(prog[n])))
+    changed = True
+    while changed:
+        changed = False
+        for n, fn in prog.items():
+            if n in interesting or not n.startswith('_'):
+                continue
+            for x in _own_nodes(fn):
+                if isinstance(x, ast.Call) and isinstance(x.func, ast.Attribute) and isinstance(x.func.value, ast.Name) \
+                        and x.func.value.id == 'self' and x.func.attr in interesting and \
+                        (x.func.attr in cand or x.func.attr in gate_owner):
+                    interesting.add(n)
+                    changed = True
+                    break
+    inl = cand & interesting
+    roots = [n for n in order if n in interesting and n not in inl and n != '_getMsg' or n == '_getMsg' and n in interesting]
+    GATE_OWNERS.clear()
+    GATE_OWNERS.update(gate_owner - inl)
+    return prog, order, inl, roots, trees
+
+
+def flat_functions(prog, inl, root):
+    out, todo = [], [root]
+    while todo:
+        n = todo.pop()
+        out.append(n)
+        for x in _own_nodes(prog[n]):
+            if isinstance(x, (ast.For, ast.AsyncFor)) and isinstance(x.iter, ast.Call) and \
+                    isinstance(x.iter.func, ast.Attribute) and isinstance(x.iter.func.value, ast.Name) and \
+                    x.iter.func.value.id == 'self' and x.iter.func.attr in inl:
+                todo.append(x.iter.func.attr)
+    return out
+
+
 def extract(repo=None):
-    """-> list of rows (fname, ordinal, guard, [(cond, ctypes, hstypes)])."""
+    """-> list of rows (root method, ordinal, guard, [(cond, ctypes, hstypes)]).
+    Rows are listed per ROOT method: helper generators with a single caller are flattened into it
+    (so extracting or merging such helpers does not change the table)."""
     repo = repo or REPO
     consts = _constants()
     res = _Resolver(consts)
     rows = []
     del CHECKS[:]
     del EARLY[:]
-    for rel in FILES:
-        path = os.path.join(repo, rel)
-        with open(path) as f:
-            src = f.read()
-        tree = ast.parse(src, path)
-        n_attr = sum(1 for n in ast.walk(tree) if isinstance(n, ast.Attribute) and n.attr == '_getMsg')
-        n_seen = 0
-        for cls in tree.body:
-            if isinstance(cls, (ast.FunctionDef, ast.AsyncFunctionDef)):
-                if any(isinstance(n, ast.Attribute) and n.attr == '_getMsg' for n in ast.walk(cls)):
-                    raise Refuse('%s: module-level function %s uses _getMsg' % (rel, cls.name))
-                continue
-            if not isinstance(cls, ast.ClassDef):
-                if any(isinstance(n, ast.Attribute) and n.attr == '_getMsg' for n in ast.walk(cls)):
-                    raise Refuse('%s: _getMsg used outside a class (line %d)' % (rel, cls.lineno))
-                continue
-            for fn in cls.body:
-                if not isinstance(fn, (ast.FunctionDef, ast.AsyncFunctionDef)):
-                    if any(isinstance(n, ast.Attribute) and n.attr == '_getMsg' for n in ast.walk(fn)):
-                        raise Refuse('%s: _getMsg used in class body of %s' % (rel, cls.name))
-                    continue
-                w = _FnWalker(fn.name, res)
-                w.walk(fn.body, {}, [])
-                rows += w.rows
-                CHECKS.extend(w.checks)
-                EARLY.extend(w.early)
-                n_seen += len(w.rows)
-        if n_seen != n_attr:
-            raise Refuse('%s: %d mentions of _getMsg but %d call sites extracted' % (rel, n_attr, n_seen))
+    del CALLS[:]
+    prog, order, inl, roots, trees = _program(repo)
+    n_attr = sum(1 for rel, tree in trees for n in ast.walk(tree) if isinstance(n, ast.Attribute) and n.attr == '_getMsg')
+    for rel, tree in trees:
+        for top in tree.body:
+            if not isinstance(top, ast.ClassDef) and \
+                    any(isinstance(n, ast.Attribute) and n.attr == '_getMsg' for n in ast.walk(top)):
+                raise Refuse('%s: _getMsg used outside a class (line %d)' % (rel, top.lineno))
+            if isinstance(top, ast.ClassDef):
+                for fn in top.body:
+                    if not isinstance(fn, (ast.FunctionDef, ast.AsyncFunctionDef)) and \
+                            any(isinstance(n, ast.Attribute) and n.attr == '_getMsg' for n in ast.walk(fn)):
+                        raise Refuse('%s: _getMsg used in class body of %s' % (rel, top.name))
+    gate_roots = set(GATE_OWNERS)        # calls of these are listed with their arguments
+    n_seen = 0
+    walked = set()
+    for r in roots:
+        w = _FnWalker(r, res, prog, inl, gate_roots, prog[r])
+        w.walk(prog[r].body, {}, [])
+        rows += w.rows
+        CHECKS.extend(w.checks)
+        EARLY.extend(w.early)
+        CALLS.extend(w.callrows)
+        n_seen += len(w.rows)
+        walked.update(flat_functions(prog, inl, r))
+    FLAT.clear()
+    for r in roots:
+        FLAT[r] = flat_functions(prog, inl, r)
+    if n_seen != n_attr:
+        raise Refuse('%d mentions of _getMsg but %d call sites extracted' % (n_attr, n_seen))
     if not rows:
         raise Refuse('no _getMsg call sites found')
     # the record layer's side of the early-data window
@@ -326,7 +505,8 @@ def extract(repo=None):
                 if isinstance(fn, (ast.FunctionDef, ast.AsyncFunctionDef)):
                     if fn.name == 'early_data_ok':
                         continue            # the property itself
-                    w = _FnWalker('RecordLayer.' + fn.name if cls.name == 'RecordLayer' else cls.name + '.' + fn.name, res)
+                    w = _FnWalker('RecordLayer.' + fn.name if cls.name == 'RecordLayer' else cls.name + '.' + fn.name,
+                                  res, fn=fn)
                     w.walk(fn.body, {}, [])
                     EARLY.extend(w.early)
                     n_mentions += sum(1 for n in ast.walk(fn) if isinstance(n, ast.Attribute) and n.attr == 'early_data_ok'
@@ -340,6 +520,9 @@ def extract(repo=None):
 
 CHECKS = []
 EARLY = []
+CALLS = []
+FLAT = {}
+GATE_OWNERS = set()
 
 
 def defrag_sources(repo=None):
@@ -375,18 +558,18 @@ def defrag_sources(repo=None):
     if not regs:
         raise Refuse('defragmenter registrations not found in tlsrecordlayer.py')
     out.append(('TLSRecordLayer.defragmenter_setup', ' ; '.join(t for _, t in sorted(regs))))
-    # users of is_empty() (every one must be a modelled check)
+    # users of is_empty() per root method (every one must be a modelled check)
+    prog, order, inl, roots, trees = _program(repo)
     users = []
-    for rel in FILES:
-        with open(os.path.join(repo, rel)) as f:
-            tree = ast.parse(f.read())
-        for cls in tree.body:
-            if isinstance(cls, ast.ClassDef):
-                for fn in cls.body:
-                    if isinstance(fn, ast.FunctionDef):
-                        k = sum(1 for n in ast.walk(fn) if isinstance(n, ast.Attribute) and n.attr == 'is_empty')
-                        if k:
-                            users.append('%s:%d' % (fn.name, k))
+    for r in roots:
+        k = 0
+        for fnm in flat_functions(prog, inl, r):
+            k += sum(1 for n in _own_nodes(prog[fnm]) if isinstance(n, ast.Attribute) and n.attr == 'is_empty')
+        if k:
+            users.append('%s:%d' % (r, k))
+    other = sum(1 for rel, tree in trees for n in ast.walk(tree) if isinstance(n, ast.Attribute) and n.attr == 'is_empty')
+    if other != sum(int(u.split(':')[1]) for u in users):
+        users.append('elsewhere:%d' % (other - sum(int(u.split(':')[1]) for u in users)))
     out.append(('is_empty.users', ' ; '.join(users)))
     return out
 
@@ -420,6 +603,12 @@ def to_coq(rows):
     out.append('   text of the enclosing conditions -- the ordering checks that are not gates *)')
     out.append('Definition extracted_order_checks : list (string * Z * string) := [')
     out.append(';\n'.join('  (%s, %d, %s)' % (_s(f), k, _s(g)) for (f, k, g) in CHECKS))
+    out.append('].')
+    out.append('')
+    out.append('(* every call of a gate-carrying method that is not flattened (it has several callers): caller root,')
+    out.append('   ordinal, callee, enclosing conditions, arguments -- how each flow instantiates the expectations *)')
+    out.append('Definition extracted_gate_calls : list (string * Z * string * string * string) := [')
+    out.append(';\n'.join('  (%s, %d, %s, %s, %s)' % (_s(f), k, _s(c), _s(g), _s(a)) for (f, k, c, g, a) in CALLS))
     out.append('].')
     out.append('')
     out.append('(* every assignment to early_data_ok (the window in which undecryptable records are dropped):')
@@ -472,5 +661,7 @@ if __name__ == '__main__':
         print('CHECK', c)
     for c in EARLY:
         print('EARLY', c)
+    for c in CALLS:
+        print('CALL', c)
     for d in defrag_sources():
         print('DEFRAG', d)
